@@ -240,6 +240,10 @@ PRESERVING = [
     ("reductions spelled as numpy functions", _P, 'total_area = current_cell_mesh["area"].sum()', 'total_area = np.sum(current_cell_mesh["area"])'),
     ("mean area through np.mean", _P, 'min_distance = radius * np.sqrt(cells["area"].mean() / np.pi)', 'min_distance = radius * np.sqrt(np.mean(cells["area"]) / np.pi)'),
     ("key with a separator", _P, 'sigmas[f"' + _KW + '"] = np.array([[sigma_xx', 'sigmas[f"' + _KW + '"] = np.array([[sigma_xx'),
+    ("reader key spelled with str.format", "forsys/frames.py", 'self.stress_tensor[0][f"{row:0{key_width}d}{column:0{key_width}d}"]',
+     'self.stress_tensor[0]["{:0{w}d}{:0{w}d}".format(row, column, w=key_width)]'),
+    ("reader key spelled with zfill and concatenation", "forsys/frames.py", 'self.stress_tensor[0][f"{row:0{key_width}d}{column:0{key_width}d}"]',
+     'self.stress_tensor[0][str(row).zfill(key_width) + str(column).zfill(key_width)]'),
     ("centre written the other way round", _P, "center = ((x_bins[row + 1] + x_bins[row]) / 2, (y_bins[column + 1] + y_bins[column]) / 2) ", "center = (0.5 * (x_bins[row] + x_bins[row + 1]), 0.5 * (y_bins[column] + y_bins[column + 1])) "),
     ("diagonal with the common factor pulled out", _P, "sigma_xx = (pressure_area_term + tension_xx) / total_area", "sigma_xx = pressure_area_term / total_area + tension_xx / total_area"),
 ]
